@@ -22,7 +22,7 @@ from vlib import OkV, Diag, Internal  # noqa: E402
 
 LEVEL = 'proof'
 RULE = ('pass level: modules from tools/gen/irgen.py (all features: x op x, calls with repeated arguments, phis with '
-        'repeated values, two edges to one successor, self loops, allocas, shuffled block order) plus nine hand-made '
+        'repeated values, two edges to one successor, self loops, allocas, shuffled block order) plus ten hand-made '
         'minimal witnesses; every pass of ppci.opt on a fresh copy and one random pass sequence (length 2..8) per module, '
         'checked after EVERY pass; non-trivial = (module, pass) pair whose pass changed the imported module. '
         'mutators: random scenarios of 1..4 instructions over 4 values / 3 target blocks biased to repeated operands. '
@@ -219,7 +219,20 @@ def witness_modules(ir):
         b3.add_instruction(ir.Return(phi))
         return m
 
+    def w_glue_dup_edge():
+        # entry: jmp b ; b: cjmp a0 < a0 ? c : c ; c: p = phi b: a0  (glue_blocks(entry, b))
+        m, f, e, (p,) = fn(ir.i32, [ir.i32])
+        b, c = blk(f, 'b'), blk(f, 'c')
+        e.add_instruction(ir.Jump(b))
+        b.add_instruction(ir.CJump(p, '<', p, c, c))
+        phi = ir.Phi('p', ir.i32)
+        c.add_instruction(phi)
+        phi.set_incoming(b, p)
+        c.add_instruction(ir.Return(phi))
+        return m
+
     return {
+        'clean-glue-dup-edge': (w_glue_dup_edge, ['CleanPass']),
         'cse-double-use': (w_cse_double, ['CSE']),
         'cse-call-repeated-args': (w_call_args, ['CSE', 'DeleteUnused']),
         'cse-phi-repeated-value': (diamond, ['CSE']),
